@@ -2,6 +2,8 @@
 (restore), C08/C20 (restore side)."""
 import z3
 
+from pyvc.values import tid
+
 from pyvc import spec, fsmodel
 from pyvc.fsmodel import ABSENT, DIR, FILE, SYMLINK, fs_of
 from pyvc.vc import Contract, LoopAnnot
@@ -409,7 +411,7 @@ def pipeline_vc(S, prefix='pipeline'):
         def split_rec(t, sep, maxsplit=-1):
             r = orig_split(t, sep, maxsplit)
             if sep == '-' and isinstance(r, list) and len(r) == 2:
-                ctx.ghost.setdefault('splits', {})[t.get_id()] = \
+                ctx.ghost.setdefault('splits', {})[tid(t)] = \
                     (T(r[0]), T(r[1]))
             return r
         V.I.lib.split_model = split_rec
@@ -458,7 +460,7 @@ def pipeline_vc(S, prefix='pipeline'):
                 if ctx.entails(z3.Not(z3.Contains(p, SV('-')))):
                     expected.append(spec.int_val_f(p))
                     continue
-                ab = ctx.ghost.get('splits', {}).get(p.get_id())
+                ab = ctx.ghost.get('splits', {}).get(tid(p))
                 if ab is None or not ctx.entails(
                         p == z3.Concat(ab[0], SV('-'), ab[1])):
                     okden = False
